@@ -41,6 +41,10 @@ bool Pool::owns(const void *q) const {
     }
     return false;
 }
+int Pool::find(const void *q) const {
+    for (size_t i = 0; i < ptr.size(); i++) if (ptr[i] == q) return (int)i;
+    return -1;
+}
 Pool &pool() { static Pool p; p.init(); return p; }
 
 // ---------------------------------------------------------------- basics
@@ -252,7 +256,7 @@ bool walk_check(const cJSON *n, MVal *m, bool as_root, std::string &why) {
         if (!n->string) return fail("key is NULL, model says '" + m->key + "'");
         if (m->key != n->string) return fail(std::string("key is '") + n->string + "', model says '" + m->key + "'");
         if (((n->type & cJSON_StringIsConst) != 0) != m->constkey) return fail(std::string("constant-key bit is ") + ((n->type & cJSON_StringIsConst) ? "set" : "clear"));
-        if (m->constkey && n->string != pool().get(m->keypool)) return fail("constant key does not point at the caller's key memory");
+        if (m->constkey && (m->keypool < 0 ? !pool().owns(n->string) : n->string != pool().get(m->keypool))) return fail("constant key does not point at the caller's key memory");
         if (!m->constkey && pool().owns(n->string)) return fail("owned key points into caller memory");
     }
     if (m->type == T_NUMBER) {
@@ -343,7 +347,7 @@ MVal *read_struct(const cJSON *n, size_t &budget, size_t depth, std::string &why
         if (!n->valuestring) { why = "string without valuestring"; delete m; return nullptr; }
         m->str = n->valuestring;
     }
-    if (n->string) { m->keystate = K_KNOWN; m->key = n->string; m->constkey = (n->type & cJSON_StringIsConst) != 0; }
+    if (n->string) { m->keystate = K_KNOWN; m->key = n->string; m->constkey = (n->type & cJSON_StringIsConst) != 0; m->keypool = m->constkey ? pool().find(n->string) : -1; }
     if (m->type == T_ARRAY || m->type == T_OBJECT) {
         for (const cJSON *c = n->child; c; c = c->next) {
             MVal *k = read_struct(c, budget, depth + 1, why, bind && !(n->type & cJSON_IsReference));
@@ -411,6 +415,10 @@ std::string gen_string(Rng &r, bool valid_utf8, bool ascii_only, size_t maxlen) 
     return s;
 }
 std::string gen_key(Rng &r, const GenOpts &o) {
+    if (o.case_keys) {
+        static const char *ks[] = {"a", "A", "b", "B", "c", "C", "d", "aa", "aA", "Ab"};
+        return ks[r.below(10)];
+    }
     if (o.pointer_keys) {
         static const char *ks[] = {"a", "b", "A", "", "/", "~", "a/b", "m~n", "0", "1", "-", "~0", "~1", "01", "a~1", "/~", "x", "foo", "10", "B"};
         if (!r.chance(1, 8)) return ks[r.below(20)];
